@@ -203,6 +203,25 @@ class PandasSchemaBackend(BaseSchemaBackend):
             error_counts=error_counts,
         )
 
+    def fill_default(self, obj, schema):
+        """Fill the null values of ``obj`` with ``schema.default``."""
+        try:
+            return obj.fillna(schema.default)
+        except (TypeError, ValueError) as exc:
+            # the default does not fit the actual type of the data, e.g. a
+            # float default on a nullable integer column
+            raise SchemaError(
+                schema=schema,
+                data=obj,
+                message=(
+                    f"Error while setting default {schema.default!r} on "
+                    f"'{schema.name}': {exc}"
+                ),
+                failure_cases=repr(schema.default),
+                check=f"set_default({schema.default!r})",
+                reason_code=SchemaErrorReason.PARSER_ERROR,
+            ) from exc
+
     def can_drop_invalid_rows(self, error_handler: ErrorHandler) -> bool:
         """Whether every collected error can be attributed to rows.
 
